@@ -125,6 +125,9 @@ MustConnect(cs, ss, certKey, certBits, certCurve, candidates) ==
        /\ (v = 4 => ((cs.curves \cup cs.dhGroups) \cap (ss.curves \cup ss.dhGroups)) # {})
        /\ (v < 4 /\ v > 0 => ~(cs.reqEms /\ ~ss.ems) /\ ~(ss.reqEms /\ ~cs.ems))
        /\ (v = 0 => ~cs.reqEms /\ ~ss.reqEms)                          \* SSLv3 has no extensions
+       \* ... so the client cannot name its curves: predictable only if neither side uses ECDHE or both have the
+       \* curve a server assumes (secp256r1)
+       /\ (v = 0 => cs.curves = {} \/ ss.curves = {} \/ "secp256r1" \in (cs.curves \cap ss.curves))
        \* ALPN: both configured and disjoint lists end in no_application_protocol
        /\ (Len(cs.alpn) > 0 /\ Len(ss.alpn) > 0 => \E i \in 1..Len(cs.alpn), j \in 1..Len(ss.alpn) : cs.alpn[i] = ss.alpn[j])
 \* with client authentication: the client's certificate must also fit the server's key-size policy
